@@ -269,7 +269,11 @@ CLAIMED["C18"] = dict(
     technique="Lean 4 verified checker over translated disassembly + protocol proof (racing binds) + threaded correspondence",
     engine="X86Abs", ref="4.2, 5 C18")
 
-REASON_TODO = "check not built yet in this session (work in progress, see DESIGN.md status section)"
+REASON_TODO = ("C14: the deciding theorem (a verified 'every vector register and stack slot the function dirtied is scrubbed "
+               "at every exit' certificate checker over the translated AES functions, engine Scrub in the style of X86Abs) is not "
+               "finished; without it only the dynamic capture run exists (tools/check.py C14: zmm0-31 + 64 KiB dead stack after every "
+               "AES call scanned for key material; clean after fixes F8/F9/F13/F14), which is correspondence and may not stand in "
+               "for a proof. See DESIGN.md 10.6.")
 
 props = [json.loads(l) for l in open(os.path.join(V, "properties.jsonl"))]
 checks, na = [], []
